@@ -23,7 +23,7 @@ from harness.common import rat, rat_list, Fraction, parse_rat_list, dyadic, Mach
 
 TOL = 1e-9
 
-INPUT_KINDS = ['field', 'wavefront', 'plain', 'intfield', 'boolfield', 'list', 'foreignfield']
+INPUT_KINDS = ['field', 'wavefront', 'plain', 'intfield', 'boolfield', 'list', 'foreignfield', 'f32field']
 BAD_VARIANTS = ['plain', 'list', 'field', 'scalar']
 
 
@@ -64,6 +64,7 @@ def gen_case(rng, big):
     ops = []
     nints = 0
     nimgs = 0
+    seen32 = False
     for _ in range(nops):
         u = rng.random()
         if style == 'reads':
@@ -83,7 +84,7 @@ def gen_case(rng, big):
             if rng.random() < 0.07:
                 ops.append(gen_bad(rng, npix, nin))
                 continue
-            ik = str(rng.choice(INPUT_KINDS, p=[0.32, 0.24, 0.14, 0.1, 0.05, 0.1, 0.05]))
+            ik = str(rng.choice(INPUT_KINDS, p=[0.27, 0.24, 0.14, 0.1, 0.05, 0.1, 0.05, 0.05]))
             if ik == 'wavefront':
                 data = [[dyadic(rng, -2, 2, 3) for _ in range(nin)], [dyadic(rng, -2, 2, 3) for _ in range(nin)]]
             elif ik == 'intfield':
@@ -99,6 +100,14 @@ def gen_case(rng, big):
             # integer dt / weight are passed as Python ints half of the time (the dtype of the
             # accumulator then depends on the first power array)
             asint = bool(rng.random() < 0.5)
+            if ik == 'f32field':
+                # a single-precision power array (exactly representable values, power-of-two dt and weight: the exposure is
+                # exact in float32 too); what follows in the life of the detector must not inherit the precision
+                data = [float(rng.integers(0, 64)) / 4 for _ in range(nin)]
+                dt, w = float(rng.choice([0.5, 1.0, 2.0])), float(rng.choice([1.0, 0.5, 2.0]))
+                seen32 = True
+            elif ik in ('field', 'plain') and seen32:
+                data = [x + float(rng.integers(1, 8)) * 2.0 ** -27 for x in data]     # needs more than single precision
             which = 'call' if (style == 'calls' and rng.random() < 0.6) or rng.random() < 0.08 else 'int'
             ops.append([which, ik, data, dt, w, asint])
             nints += 1
@@ -227,6 +236,11 @@ def _ones(n, v=1.0):
 
 
 DIRECTED = [
+    # exposures of different dtype in the life of one detector: single precision first, then double precision that needs it
+    D('noiseless', [2, 2], 1, [['int', 'f32field', [1.0, 2.25, 3.5, 4.0], 1.0, 1.0, False], ['read'],
+                               ['int', 'field', [1.0 + 2.0 ** -26, 2.0, 3.0 + 2.0 ** -25, 4.0 + 2.0 ** -40], 1.0, 1.0, False], ['read'], ['read']]),
+    D('noisy-off', [2, 1], 2, [['int', 'f32field', [float(i) / 4 for i in range(8)], 0.5, 2.0, False], ['read'],
+                               ['int', 'field', [1.0 + 2.0 ** -26] * 8, 1.0, 1.0, False], ['read']]),
     # one subsampling factor per axis: full histories (several integrations, empty read-outs, scribbles) on both detector classes
     D('noiseless', [2, 1], 3, [['int', 'field', [float(i) for i in range(12)], 0.5, 2.0, False], ['int', 'plain', [1.0] * 12, 1.0, 1.0, False], ['read'], ['read'],
                                ['scribble', 0, 7.0], ['call', 'field', [float(i % 5) for i in range(12)], 2.0, 1.0, False]], ss=[2, 3], spell='array'),
@@ -339,6 +353,9 @@ def make_input(det, ik, data):
         return a, a, np.array(data, dtype=float)
     if ik == 'boolfield':
         a = hcipy.Field(np.array(data, dtype=bool), g)
+        return a, a, np.array(data, dtype=float)
+    if ik == 'f32field':
+        a = hcipy.Field(np.array(data, dtype=np.float32), g)
         return a, a, np.array(data, dtype=float)
     if ik == 'foreignfield':
         # the right number of samples, on a grid object that is not (and does not equal) the input grid
@@ -580,7 +597,7 @@ def run_real(case):
                 rline(o, 'C17 ralloc %s' % rat_list(o['power']), 'ok')
                 rline(o, 'C17 rint %d %s %s' % (len(handles), rat(dt), rat(w)), 'ok')
                 inp_handle.append(len(handles))
-                handles.append(inputs[-1][0] if ik in ('field', 'plain', 'foreignfield', 'intfield', 'boolfield') else None)
+                handles.append(inputs[-1][0] if ik in ('field', 'plain', 'foreignfield', 'intfield', 'boolfield', 'f32field') else None)
             if op[0] == 'call' and not o['bad']:
                 model.append('C17 read')
                 o['model_idx'] = len(model) - 1
